@@ -125,7 +125,9 @@ class _UnionNormType(_BasicNormType):
     def _make_orderable(self, obj: object) -> str:
         if isinstance(obj, BaseNormType):
             return f"{obj.origin} {[self._make_orderable(arg) for arg in obj.args]}"
-        return str(obj)
+        if isinstance(obj, tuple):  # parameters of Callable
+            return f"{[self._make_orderable(element) for element in obj]}"
+        return repr(obj)  # str() does not distinguish Literal["1"] and Literal[1]
 
     def _order_args(self, args: VarTuple[BaseNormType]) -> VarTuple[BaseNormType]:
         args_list = list(args)
